@@ -561,8 +561,12 @@ func makeMarginBoxes(context *layoutContext, page *bo.PageBox, state tree.PageSt
 // Layout a margin box’s content once the box has dimensions.
 func marginBoxContentLayout(context *layoutContext, mBox *bo.MarginBox) Box {
 	var positionedBoxes []*AbsolutePlaceholder
+	// the content of a margin box is not fragmented : forced breaks and changes of
+	// page name (a running element keeps the ones of the place it was taken from) are ignored
+	context.inMarginBox = true
 	newBox_, tmp, _ := blockContainerLayout(context, mBox, -pr.Inf, nil, true,
 		&positionedBoxes, &positionedBoxes, new([]pr.Float), false, -1)
+	context.inMarginBox = false
 
 	if tmp.resumeAt != nil {
 		panic(fmt.Sprintf("resumeAt should be nil, got %v", tmp.resumeAt))
